@@ -59,9 +59,9 @@ def run(tier):
         lens, ind = [1, 2, 3], [1]
     else:
         lens, ind = [1, 2, 3, 4], [1, 2, 3]
-    base_tmo = 150 if tier == "quick" else 300
+    base_tmo = 300 if tier == "quick" else 450
     for L in lens:
-        firsts = [-1] if L <= 2 else list(range(7))
+        firsts = [-1] if L <= 2 else list(range(8))
         for F in firsts:
             jobs.append(("_history", base_tmo if L <= 3 else 900, {"C14_LEN": str(L), "C14_FIRST": str(F)}, L <= 3))
             meta.append(("history", L, F))
@@ -69,7 +69,7 @@ def run(tier):
         jobs.append(("_history_twin", 60, {"C14_LEN": str(L), "C14_FIRST": "-1"}, True))
         meta.append(("twin", L, -1))
     for L in ind:
-        for F in range(7):
+        for F in range(8):
             for X in ([-1] if L == 1 else [0, 1]):
                 jobs.append(("_inductive", base_tmo if L == 1 else 900, {"C14_LEN": str(L), "C14_FIRST": str(F), "C14_EXTRA": str(X)}, L == 1))
                 meta.append(("inductive", L, F))
@@ -103,7 +103,7 @@ def run(tier):
         if len(samples) < 8:
             samples.append({"condition": label, "verdict": r.verdict, "seconds": round(r.seconds, 1), "message": r.message[:160]})
     rep.canary("agent_count_per_state-indexes-by-id", canary_mut())
-    rep.assume("op alphabet: create A, create B, delete(id), toggle state(id), configure_agents(1 A + 1 B), reset, delete_agents([id,id+1]); ids 0..4",
+    rep.assume("op alphabet: create A, create B, delete(id), toggle state(id), configure_agents(1 A + 1 B), reset, delete_agents([id,id+1]), create an A whose initialize() creates a B; ids 0..4",
                "get_random_integer replaced by an arbitrary in-range integer (symbolic)",
                "bounded histories: length <= 3 from the empty registry; inductive step: arbitrary pre-state with 1 live agent, dead-id gaps <= 1 (claimed in both tiers); thorough adds histories of %d and inductive steps on <= %d live agents as far as its time budget reaches" % (max(lens), max(ind)),
                "CrossHair 0.0.110 models of int/list/tuple; only 'Confirmed over all paths' is accepted")
